@@ -395,20 +395,6 @@ theorem attrsWf_names : ∀ (as : List (Bytes × Bytes)), attrsWf as = true → 
 
 /-! ### the text loop finds the next `<` -/
 
-theorem idxOf_none {p : UInt8 → Bool} : ∀ {s : Bytes}, idxOf p s = none → ∀ j, j < s.length → p (s.getD j 0) = false := by
-  intro s
-  induction s with
-  | nil => intro _ j hj; simp at hj
-  | cons b r ih =>
-    intro h j hj
-    simp only [idxOf] at h
-    by_cases hb : p b = true
-    · simp [hb] at h
-    · simp [hb] at h
-      cases j with
-      | zero => simpa using hb
-      | succ j => simpa using ih h j (by simpa using hj)
-
 theorem textLoop_ok (t : Bytes) (m : Nat) (hm : m < t.length) (hm60 : t.getD m 0 = 60) :
     ∀ (f : Nat) (p : Pos), p.pos ≤ m → t.length - p.pos < f → ∃ q, textLoop t f p = .ok q := by
   intro f
